@@ -23,7 +23,11 @@ type Observation struct {
 // Observe queries a cache through its public API only.
 func Observe(c *cdi.Cache) Observation {
 	o := Observation{Paths: map[string]string{}, Prios: map[string]int{}, Markers: map[string]string{}, Specs: map[string][]string{}}
-	o.Devices = append([]string{}, c.ListDevices()...)
+	// every container the library hands out is copied and then overwritten / cleared, as a caller
+	// that sorts, filters or reuses "its" slices and maps would (see hostile.go)
+	devs := c.ListDevices()
+	o.Devices = append([]string{}, devs...)
+	scribbleStrings(devs)
 	sort.Strings(o.Devices)
 	for _, q := range o.Devices {
 		d := c.GetDevice(q)
@@ -40,12 +44,23 @@ func Observe(c *cdi.Cache) Observation {
 			o.Markers[q] += " (qualified name " + d.GetQualifiedName() + ")"
 		}
 	}
-	o.Vendors = append([]string{}, c.ListVendors()...)
-	o.Classes = append([]string{}, c.ListClasses()...)
+	vs, cs := c.ListVendors(), c.ListClasses()
+	o.Vendors = append([]string{}, vs...)
+	o.Classes = append([]string{}, cs...)
+	scribbleStrings(vs)
+	scribbleStrings(cs)
 	for _, v := range o.Vendors {
 		set := map[string]bool{}
-		for _, s := range c.GetVendorSpecs(v) {
+		held := c.GetVendorSpecs(v)
+		for _, s := range held {
+			if s == nil {
+				set["<nil entry in GetVendorSpecs>"] = true
+				continue
+			}
 			set[s.GetPath()] = true
+		}
+		for i := range held {
+			held[i] = nil
 		}
 		var ps []string
 		for p := range set {
@@ -54,8 +69,15 @@ func Observe(c *cdi.Cache) Observation {
 		sort.Strings(ps)
 		o.Specs[v] = ps
 	}
-	for p := range c.GetErrors() {
+	errs := c.GetErrors()
+	for p := range errs {
 		o.ErrPaths = append(o.ErrPaths, p)
+	}
+	for p, l := range errs {
+		for i := range l {
+			l[i] = fmt.Errorf("overwritten by the caller")
+		}
+		delete(errs, p)
 	}
 	sort.Strings(o.ErrPaths)
 	return o
